@@ -275,6 +275,15 @@ Theorem C01_overlap_integral_mixed_shape :
 Proof. exact (fun F K bs C => overlap_integral_mixed_shape K bs C). Qed.
 Print Assumptions C01_overlap_integral_mixed_shape.
 
+(* asymm_is_offdiag_block for every assignment of coordinate types in the two basis sets *)
+Theorem C01_asymm_is_offdiag_block_mixed :
+  forall (F : Type) (K : Fops F) (b1 b2 : list (shell F)),
+  (forall s, In s b1 -> 0 < nseg s) -> (forall s, In s b2 -> 0 < nseg s) -> 0 < length b2 ->
+  overlap_integral_asymm K b1 b2 None None
+  = map (skipn (ototal K b1)) (firstn (ototal K b1) (overlap_integral K (b1 ++ b2) None)).
+Proof. exact (fun F K => overlap_asymm_is_offdiag_block_mixed K). Qed.
+Print Assumptions C01_asymm_is_offdiag_block_mixed.
+
 (* the processed block of one shell pair, any coordinate types, any element module (no algebraic law):
    T_2 on the second index after T_1 on the first index of the normalised Cartesian block *)
 Theorem C01_shell_block_spec :
